@@ -55,11 +55,11 @@ func init() {
 		},
 		"strings.HasPrefix": func(vc *VC, s *State, call *ast.CallExpr, args []*Term) []*Term {
 			vc.prog.Assumed[stdDocs["strings.HasPrefix"]] = true
-			return []*Term{App("str.prefixof", SBool, args[1], args[0])}
+			return []*Term{App("sx.prefixof", SBool, args[1], args[0])}
 		},
 		"strings.HasSuffix": func(vc *VC, s *State, call *ast.CallExpr, args []*Term) []*Term {
 			vc.prog.Assumed[stdDocs["strings.HasSuffix"]] = true
-			r := App("str.suffixof", SBool, args[1], args[0])
+			r := App("sx.suffixof", SBool, args[1], args[0])
 			s.assume(Implies(r, Le(strLen(args[1]), strLen(args[0]))))
 			return []*Term{r}
 		},
@@ -90,6 +90,14 @@ func init() {
 		"strings.Contains": func(vc *VC, s *State, call *ast.CallExpr, args []*Term) []*Term {
 			vc.prog.Assumed[stdDocs["strings.Contains"]] = true
 			return []*Term{Ge(vc.indexModel(s, args[0], args[1], false), IntLit(0))}
+		},
+		"strings.Split": func(vc *VC, s *State, call *ast.CallExpr, args []*Term) []*Term {
+			vc.prog.Assumed["strings.Split(s, sep) with non-empty sep: at least one piece; the last piece is s after the last occurrence of sep (s itself if sep does not occur)"] = true
+			T := types.NewSlice(types.Typ[types.String])
+			res := vc.loaded(s, T, App("std.strings.Split", sortOf(T), args...), "parts")
+			s.assume(Not(Sel(res, "isnil")))
+			s.assume(Implies(Gt(strLen(args[1]), IntLit(0)), And(Ge(sliceLen(res), IntLit(1)), Eq(Select(sliceElems(res), Sub(sliceLen(res), IntLit(1))), lastSegTerm(args[0], args[1])))))
+			return []*Term{res}
 		},
 		"strings.SplitN": func(vc *VC, s *State, call *ast.CallExpr, args []*Term) []*Term {
 			return []*Term{vc.splitNModel(s, call, args)}
@@ -226,4 +234,10 @@ func (vc *VC) pureStdCall(s *State, call *ast.CallExpr, key string, sig *types.S
 		res[i] = vc.loaded(s, t, App(fmt.Sprintf("std.%s.r%d", smtName(key), i), sortOf(t), args...), "res")
 	}
 	return res
+}
+
+// lastSegTerm: the part of s after the last occurrence of sep (s itself when sep does not occur).
+func lastSegTerm(str, sep *Term) *Term {
+	idx := App("std.strings.LastIndex", SInt, str, sep)
+	return Ite(Lt(idx, IntLit(0)), str, strSub(str, Add(idx, strLen(sep)), strLen(str)))
 }
